@@ -108,9 +108,10 @@ _TRACED: dict = {}
 
 
 def _model(cfg, span, cells, scripts, dtype, staged=False):
-    M = make_scripted(cfg['N'], with_z=False, lags=cfg['lags'], leads=cfg['leads'])
+    cl, cd = cfg.get('class_lags', cfg['lags']), cfg.get('class_leads', cfg['leads'])
+    M = make_scripted(cfg['N'], with_z=False, lags=cl, leads=cd)
     if cfg.get('tracer'):
-        key = (cfg['N'], cfg['lags'], cfg['leads'])
+        key = (cfg['N'], cl, cd)
         if key not in _TRACED:
             from fsic.extensions.model import TracerMixin
             _TRACED[key] = type('TracedScripted', (TracerMixin, M), {})
@@ -123,6 +124,9 @@ def _model(cfg, span, cells, scripts, dtype, staged=False):
             arr = m.__dict__['_' + n]
             for j, v in enumerate(vals):
                 arr[j] = v
+    if 'class_lags' in cfg or 'class_leads' in cfg:
+        # the INSTANCE's lag / lead lengths differ from the class constants (the object-level attributes decide)
+        m.lags, m.leads = cfg['lags'], cfg['leads']
     m.attach(Script(cfg['N'], cfg['B']), scripts)
     if cfg.get('presolved'):
         # a model that has been solved before: later periods must keep these marks when an earlier period fails
@@ -560,6 +564,11 @@ def configs(tier: str):
             for L in (2, 3):
                 out.append(cfg5(span=span, L=L, lags=lags, leads=leads, distinct=True, errors='ignore', failures='ignore'))
                 out.append(cfg5(span=span, L=L, lags=lags, leads=leads, distinct=False, errors='ignore', failures='ignore'))
+    # instance-level lags / leads set below or above the class constants
+    for span in ('list_sym', 'range'):
+        for (cl, cd, il, id_) in ((2, 0, 1, 0), (1, 1, 0, 0), (0, 2, 0, 1), (0, 0, 1, 1), (2, 1, 0, 1)):
+            for L in (3, 4):
+                out.append(cfg5(span=span, L=L, class_lags=cl, class_leads=cd, lags=il, leads=id_, distinct=True, errors='ignore', failures='ignore'))
     # offsets
     for off in (-1, 1):
         for span in ('range', 'list_sym'):
